@@ -887,6 +887,67 @@ func (h *harness) gridLogin() {
 	}
 }
 
+// streamVersusLogout (direct): a client keeps GET /api/log/stream open with a session that is inside its extension window
+// (twice; and, third case, one that is far from it); the same cookie logs out from elsewhere. After a couple of stream ticks
+// the cookie is still dead on every route.
+func (h *harness) streamVersusLogout() {
+	for _, remaining := range []time.Duration{5 * time.Minute, 3 * time.Minute, 40 * time.Minute} {
+		h.begin()
+		sid := h.mustLogin()
+		if sid < 0 {
+			h.end("stream-vs-logout")
+			continue
+		}
+		cookie := "reservoir.sid=" + h.sidStr[sid]
+		ctx, cancel := context.WithCancel(context.Background())
+		hr, _ := http.NewRequestWithContext(ctx, "GET", h.base+"/api/log/stream", nil)
+		hr.Header.Set("Cookie", cookie)
+		cl := &http.Client{Transport: &http.Transport{DisableKeepAlives: true}}
+		opened := make(chan int, 1)
+		go func() {
+			resp, err := cl.Do(hr)
+			if err != nil {
+				opened <- -1
+				return
+			}
+			opened <- resp.StatusCode
+			io.Copy(io.Discard, resp.Body) // until the context is cancelled
+			resp.Body.Close()
+		}()
+		status := -1
+		select {
+		case status = <-opened:
+		case <-time.After(4 * time.Second):
+		}
+		plain := func(method, path string) int {
+			rq, _ := http.NewRequest(method, h.base+path, nil)
+			rq.Header.Set("Cookie", cookie)
+			resp, err := h.client.Do(rq)
+			if err != nil {
+				return -1
+			}
+			io.Copy(io.Discard, resp.Body)
+			resp.Body.Close()
+			return resp.StatusCode
+		}
+		// time passes with the stream open: the session (the very record the stream was opened with) comes close to its
+		// expiry; the logout follows at once, before the stream's next tick
+		h.ageTo(sid, remaining)
+		out := plain("POST", "/api/auth/logout")
+		time.Sleep(1300 * time.Millisecond) // at least two ticks of the stream
+		me := plain("GET", "/api/auth/me")
+		ver := plain("GET", "/api/version")
+		cancel()
+		h.meta.Count("stream_vs_logout", fmt.Sprintf("stream=%d logout=%d", status, out))
+		if status == 200 && out >= 200 && out < 300 && (me != 401 || ver != 401) {
+			h.meta.DirectFail(map[string]any{"kind": "logged-out-session-accepted", "session_remaining_at_logout": remaining.String(),
+				"what":          "a session was logged out while a log stream opened with it was still running; after two stream ticks the logged-out cookie is accepted again",
+				"logout_status": out, "GET /api/auth/me": me, "GET /api/version": ver})
+		}
+		h.end("stream-vs-logout")
+	}
+}
+
 // G5: random histories over the whole alphabet
 func (h *harness) randomHistory() {
 	h.begin()
@@ -1095,6 +1156,7 @@ func main() {
 	for i := 0; i < n; i++ {
 		h.randomHistory()
 	}
+	h.streamVersusLogout()
 	h.w.Flush()
 	h.meta.Exhaustive = false
 	h.meta.Write(*flagOut, h.w.Files)
